@@ -209,5 +209,23 @@ AbsMapOp(e, A, A2, ph) ==
                /\ HintsOK(e.r, Cardinality(A))
                /\ e.pn = "")
     [] e.op = "eq" -> LET b == IF KV(A) = KV(A2) THEN 1 ELSE 0 IN same(<<b, b>>)
+    \* ---- rayon: every element is delivered to the consumer exactly once, whatever the split / schedule
+    [] e.op = "par_iter" ->
+         LET proj(z) == IF e.n \in {0, 3} THEN <<z[1], z[2], z[3], z[4]>>
+                        ELSE IF e.n = 1 THEN <<z[1], z[2], -1, -1>> ELSE <<-1, -1, z[3], z[4]>>
+         IN AR(A, {}, /\ Len(e.y) = Cardinality(A)
+                      /\ \A y \in SeqToSet(e.y) : Cardinality({i \in 1..Len(e.y) : e.y[i] = y}) = Cardinality({z \in A : proj(z) = y})
+                      /\ e.pn = "")
+    [] e.op \in {"par_drain", "into_par_iter"} ->
+         LET AY == {<<z[1], z[2], z[3], z[4]>> : z \in A}
+         IN IF e.n = 0
+            THEN AR({}, {}, /\ NoDupSeq(e.y) /\ SeqToSet(e.y) = AY /\ e.r = <<Cardinality(A)>> /\ e.pn = "")
+            ELSE \* short-circuiting consumer: what it did not return is dropped exactly once
+                 IF Len(e.y) = 1 /\ e.y[1] \in AY /\ e.y[1][1] = e.k
+                 THEN AR({}, AllIds(A) \ Ids({e.y[1][2], e.y[1][4]}), e.r = <<e.y[1][2]>> /\ e.pn = "")
+                 ELSE AR({}, AllIds(A), e.y = <<>> /\ e.r = <<-1>> /\ ~Has(A, e.k) /\ e.pn = "")
+    [] e.op = "par_extend" ->
+         LET r == AbsExtend(A, e.y, ph, {}) IN AR(r.A, r.dr, e.pn = "")
+    [] e.op = "par_eq" -> LET b == IF KV(A) = KV(A2) THEN 1 ELSE 0 IN AR(A, {}, e.pn = "" /\ \A i \in 1..Len(e.r) : e.r[i] = b)
     [] OTHER -> AR(A, {}, FALSE)
 =============================================================================
